@@ -49,11 +49,11 @@ PROPS = {
 
 PROPS["C13"] = {
     "level": "proof",
-    "lean_modules": ["Rain.Props.C13"],
-    "components": ["c13"],
-    "sig_prefixes": ["c13:"],
+    "lean_modules": ["Rain.Props.C13", "Rain.Props.Lru"],
+    "components": ["c13", "lru"],
+    "sig_prefixes": ["c13:", "lru:"],
     "title": "Table files give back exactly what was put in",
-    "technique": "Lean 4 theorems (block round trip, separator/successor bounds, Table::get = first-entry-at-or-after specification and TwoLevelIterator = flat cursor for EVERY partition into blocks and every cursor program) + differential test of BlockBuilder/BlockReader/TableBuilder/Table/TwoLevelIterator against the compiled model and the specification",
+    "technique": "Lean 4 theorems (block round trip, separator/successor bounds, Table::get = first-entry-at-or-after specification and TwoLevelIterator = flat cursor for EVERY partition into blocks and every cursor program) + differential test of BlockBuilder/BlockReader/TableBuilder/Table/TwoLevelIterator against the compiled model and the specification + LRU cache model (table cache, block cache): Lean 4 proofs that for every operation sequence a hit is the last value inserted for that key, never another key's or an older one (cache_contents_sound, cache_answers_sound), size <= capacity, recently used keys stay; the real LRUCache is run against the model on generated sequences and hammered from several threads",
     "level_text": "Machine-checked proof over the Lean model of block_builder.rs / block.rs / table_builder.rs / table.rs / key.rs / bytes.rs for every sorted entry list, every partition into non-empty blocks (hence every max_block_size), every lookup and every cursor program; tied to the code on every run by byte-exact block comparison, structural table dumps (partition, index keys) and answer-for-answer comparison of lookups and cursor programs on tables built by the real TableBuilder; the specification itself (first entry at or after the target decides: value / deletion / not in this file) is evaluated on the implementation.",
     "design_ref": "5 (C13)",
     "trusted_base": COMMON_TB + [
@@ -104,8 +104,8 @@ LSM_TB = DB_TB + [
 ]
 PROPS["C01"] = {
     "level": "proof", "title": "Reads return the latest committed write, wherever the data lives",
-    "lean_modules": ["Rain.Props.Lsm"], "components": ["lsm"], "sig_prefixes": ["c01:", "c07:", "c10:", "c09:"],
-    "technique": "Lean 4 refinement proof (DB::get = newest entry at or below the bound over memtable / immutable memtable / level-0 files / deeper levels; every transition preserves invariant and views; C01_reads_latest for every action list) + trace validation of the real worker's transitions against the proved relation + BTreeMap oracle",
+    "lean_modules": ["Rain.Props.Lsm", "Rain.Props.Lru"], "components": ["lsm", "lru"], "sig_prefixes": ["c01:", "c07:", "c10:", "c09:", "lru:"],
+    "technique": "Lean 4 refinement proof (DB::get = newest entry at or below the bound over memtable / immutable memtable / level-0 files / deeper levels; every transition preserves invariant and views; C01_reads_latest for every action list) + trace validation of the real worker's transitions against the proved relation + BTreeMap oracle + LRU cache model (table cache, block cache): Lean 4 proofs that for every operation sequence a hit is the last value inserted for that key, never another key's or an older one (cache_contents_sound, cache_answers_sound), size <= capacity, recently used keys stay; the real LRUCache is run against the model on generated sequences and hammered from several threads",
     "level_text": "Machine-checked proof over the LSM model (read path exactly as Version::get searches, all transitions guarded only by validity predicates, no size thresholds, hence every DbOptions): for every history a get at the latest sequence number returns the most recent write. " + LSM_TIE + ".",
     "design_ref": "5 (C01)", "trusted_base": LSM_TB,
     "assumptions": ["single client (concurrency is C05/C06)", "Table::get meets its specification lookupSorted (proved for the table model in C13, filters never cut a lookup short: C14)"],
